@@ -24,6 +24,19 @@ def qv(f):
     return _Q(f.numerator, f.denominator) if f.denominator != 1 else _RealVal(f.numerator)
 
 
+def snap_float(x):
+    """a double met in the executed Python code -> exact rational: the unique p/q (q <= 10^4) whose nearest double it is
+    (within relative 2^-50), else the double's exact binary value.  Snaps are recorded (Sym.SNAPS) for evidence."""
+    f = Fraction(x)
+    if f.denominator <= 4096:
+        return f
+    cand = f.limit_denominator(10 ** 4)
+    if cand != 0 and abs(cand - f) <= abs(f) * Fraction(1, 2 ** 50):
+        Sym.SNAPS[repr(x)] = str(cand)
+        return cand
+    return f
+
+
 def _is_num(x):
     return isinstance(x, Fraction)
 
@@ -33,7 +46,7 @@ class Sym:
     ATOMS = {}      # z3 ast id -> z3 term
     DENOMS = {}     # z3 ast id -> z3 term (everything that was divided by)
     POLICY = None   # callable(kind, lhs, rhs) -> bool for ==, !=, <, ... on symbolic values (E4 runs)
-    EXACT_FLOATS = True
+    SNAPS = {}      # float -> 'p/q': binary doubles of the executed Python code (e.g. 1/3.) read as the rational they round
 
     def __init__(self, n, d=None):
         self.n = n
@@ -57,7 +70,7 @@ class Sym:
         if isinstance(x, float):
             if x != x or x in (float('inf'), float('-inf')):
                 raise ValueError('non-finite float in symbolic arithmetic')
-            return Sym(Fraction(x))
+            return Sym(snap_float(x))
         if isinstance(x, z3.ArithRef):
             return Sym(x)
         try:
@@ -65,7 +78,7 @@ class Sym:
             if isinstance(x, np.integer):
                 return Sym(Fraction(int(x)))
             if isinstance(x, np.floating):
-                return Sym(Fraction(float(x)))
+                return Sym(snap_float(float(x)))
             if isinstance(x, np.bool_):
                 return Sym(Fraction(int(x)))
         except ImportError:
